@@ -61,6 +61,17 @@ fn strip_zwnj(s: &str) -> String {
     s.chars().filter(|&c| c != crate::bn::ZWNJ).collect()
 }
 
+/// The raw key text of a key history, from the harness's own key table: the characters of the keys in order.
+/// `ignored`: key codes that have no layout value under the configuration (they change nothing, raw keys included).
+pub fn raw_of(evs: &[Ev], ignored: &[u16]) -> String {
+    evs.iter()
+        .filter_map(|e| match e {
+            Ev::Key { code, .. } if !ignored.contains(code) => crate::keys::by_code(*code).and_then(|k| k.ch),
+            _ => None,
+        })
+        .collect()
+}
+
 pub struct Judge<'a> {
     pub dict: &'a Dict,
     pub emoji: &'a HashSet<String>,
@@ -193,7 +204,8 @@ impl<'a> Walker<'a> {
                         if r.len() > 1 {
                             self.nontrivial += 1;
                         }
-                        let raw = st.typed.clone();
+                        // the raw key text comes from the harness's key table, not from the engine's own record
+                        let raw = raw_of(&self.path, &[]);
                         self.judge.judge(&self.ctx.opts, &self.path, &r, Some(&raw));
                         if prefix.chars().count() == 3 && r.len() > 4 {
                             self.samples.offer(|| json!({"flags": self.ctx.opts.flags(), "typed": prefix.clone(), "result": r.to_json()}));
@@ -382,13 +394,21 @@ pub fn run(report: &Report, thorough: bool) -> Evidence {
         // character inserted after the second code point (regex-special ones among them)
         let wraps: [(&str, &str); 8] = [("(", ")"), ("\"", "\""), ("", ":"), ("", "\u{0964}"), ("'", ""), ("", "?!"), ("\"(", ")\u{0964}"), ("", ",,,")];
         let inner: [char; 6] = ['?', '(', ')', '+', '^', '-'];
+        let noop_code = crate::keys::by_name("VC_KP_5").unwrap().code;
+        let noop = Ev::key(noop_code);
         par_for(
             ws.len(),
             8,
             |w| {
                 let xdg = scratch_xdg(&format!("c15w-{}", w));
                 let mut v = vec![];
-                for (kar, smart, english, ansi) in [(false, true, true, false), (true, false, false, true)] {
+                // (kar, smart, english, ansi): quick - the four {smart, ANSI} combinations; thorough - all 16 settings
+                let wcfgs: Vec<(bool, bool, bool, bool)> = if thorough {
+                    (0..16).map(|b| (b & 1 != 0, b & 2 != 0, b & 4 != 0, b & 8 != 0)).collect()
+                } else {
+                    vec![(false, true, true, false), (true, false, false, true), (false, true, false, true), (true, false, true, false)]
+                };
+                for (kar, smart, english, ansi) in wcfgs {
                     let mut o = Opts::fixed(&probhat(), &real_db(), &xdg);
                     o.fsugg = true;
                     o.kar = kar;
@@ -438,9 +458,53 @@ pub fn run(report: &Report, thorough: bool) -> Evidence {
                         if strip_zwnj(&st.buf) != text {
                             continue;
                         }
-                        if let Some(r) = last {
+                        if let Some(r) = &last {
                             wrapped.fetch_add(1, Ordering::Relaxed);
-                            judge.judge(&ctx.opts, &evs, &r, Some(&st.typed));
+                            judge.judge(&ctx.opts, &evs, r, Some(&raw_of(&evs, &[])));
+                        }
+                        // a key the layout gives nothing for (number-pad key, number-pad option off) pressed in front of,
+                        // inside and after the text changes nothing: same list, raw key text without it
+                        if text.len() == word.len() + 2 || text == **word {
+                            for pos in [0usize, 1, evs.len()] {
+                                if pos > evs.len() {
+                                    continue;
+                                }
+                                let mut e3 = evs.clone();
+                                e3.insert(pos, noop.clone());
+                                restore(ctx, &FxState::idle());
+                                let mut last3 = None;
+                                let mut failed = false;
+                                for (i, e) in e3.iter().enumerate() {
+                                    match ctx.apply(e) {
+                                        Ok(Out::Sugg(r)) => last3 = Some(r),
+                                        Ok(_) => {}
+                                        Err(f) => {
+                                            report.add(fail_violation("C15", &f, &ctx.opts, &e3[..=i]));
+                                            failed = true;
+                                            break;
+                                        }
+                                    }
+                                }
+                                if failed {
+                                    continue;
+                                }
+                                wrapped.fetch_add(1, Ordering::Relaxed);
+                                if let (Some(a), Some(b)) = (&last, &last3) {
+                                    if judge.judge(&ctx.opts, &e3, b, Some(&raw_of(&e3, &[noop_code]))) && a != b {
+                                        report.add(
+                                            Violation::new("C15", "ignored-key-changes-list", "ignored-key-changes-list")
+                                                .opts(&ctx.opts)
+                                                .events(&e3)
+                                                .detail(format!("with a key that has no layout value at position {} the list is {} instead of {}", pos, b.to_json(), a.to_json())),
+                                        );
+                                    }
+                                }
+                            }
+                            // back to the state after the text, for the backspace clause below
+                            restore(ctx, &FxState::idle());
+                            for e in evs.iter() {
+                                let _ = ctx.apply(e);
+                            }
                         }
                         // one backspace: the list for the shorter text, raw-text clause suspended
                         if let Ok(Out::Sugg(rb)) = ctx.apply(&Ev::Bs) {
